@@ -1,17 +1,17 @@
 CONSTANTS
-  MaxCmds = 3
-  MaxPending = 2
+  MaxCmds = 4
+  MaxPending = 3
   MaxNum = 1
   MaxItems = 1
-  MaxUid = 1
-  MaxCode = 1
+  MaxUid = 0
+  MaxCode = 0
   NFlagSets = 1
-  Kinds = {"SELECT", "IDLE", "NOOP", "EXPUNGE"}
+  Kinds = {"NOOP", "LIST", "SEARCH"}
   Greetings = {"PREAUTH"}
   SimDepth = 0
   Count = FALSE
-  MaxDepth = 0
+  MaxDepth = 7
 INIT GenInit
 NEXT GenNext
-VIEW GenView
+VIEW DepthView
 CHECK_DEADLOCK FALSE
